@@ -112,7 +112,11 @@ class AdversarialLeastSquares:
             optimality = SymReal(z3.Real("optimality"))
         else:
             rng = np.random.default_rng(7)
-            jac = rng.uniform(0.5, 1.5, size=(m, n)) * getattr(self, "jac_scale", 1.0)
+            jsc_ = getattr(self, "jac_scale", 1.0)
+            jac = rng.uniform(0.5, 1.5, size=(m, n)) * (1.0 if jsc_ == "near-singular" else jsc_)
+            if jsc_ == "near-singular" and n >= 2:
+                # numerically rank deficient: one singular value around 1e-10, i.e. above machine epsilon but with its square below it
+                jac[:, -1] = jac[:, 0] + 1e-10 * rng.uniform(0.5, 1.5, size=m)
             optimality = 0.125
         return OptimizeResult(x=x, fun=f, jac=jac, nfev=len(self.evals), njev=1, optimality=optimality, active_mask=np.array(mask),
                               message="adversarial stub finished", status=1, success=True, cost=None, grad=None)
